@@ -47,6 +47,81 @@ def family_consistency(name, opc, ref, cats):
     return out
 
 
+# When an opcode entered / left CPython's instruction set, for the versions nobody can run any more (1.6 - 3.5).
+# Source: the "New in version" / "Changed in version" notes of the dis documentation and Misc/HISTORY; ranges are
+# inclusive (first table that has it, last table that has it); several ranges = 2.x and 3.x lines.
+HISTORY = {
+    "NOP": [((2, 4), (3, 5))], "LIST_APPEND": [((2, 4), (3, 5))], "YIELD_VALUE": [((2, 2), (3, 5))],
+    "GET_ITER": [((2, 2), (3, 5))], "FOR_ITER": [((2, 2), (3, 5))], "FOR_LOOP": [((1, 5), (2, 2))],
+    "BINARY_FLOOR_DIVIDE": [((2, 2), (3, 5))], "BINARY_TRUE_DIVIDE": [((2, 2), (3, 5))],
+    "SET_LINENO": [((1, 5), (2, 2))], "CONTINUE_LOOP": [((2, 1), (3, 5))],
+    "LOAD_CLOSURE": [((2, 1), (3, 5))], "LOAD_DEREF": [((2, 1), (3, 5))], "STORE_DEREF": [((2, 1), (3, 5))],
+    "MAKE_CLOSURE": [((2, 1), (3, 5))], "DUP_TOPX": [((2, 0), (3, 1))],
+    "ROT_FOUR": [((2, 0), (3, 1))], "DUP_TOP_TWO": [((3, 2), (3, 5))], "IMPORT_STAR": [((2, 0), (3, 5))],
+    "INPLACE_ADD": [((2, 0), (3, 5))], "PRINT_ITEM_TO": [((2, 0), (2, 7))], "UNPACK_SEQUENCE": [((2, 0), (3, 5))],
+    "UNPACK_TUPLE": [((1, 5), (1, 6))], "CALL_FUNCTION_VAR": [((1, 6), (3, 5))], "CALL_FUNCTION_KW": [((1, 6), (3, 5))],
+    "WITH_CLEANUP": [((2, 5), (3, 4))], "WITH_CLEANUP_START": [((3, 5), (3, 5))], "STORE_MAP": [((2, 6), (3, 4))],
+    "SETUP_WITH": [((2, 7), (2, 7)), ((3, 2), (3, 5))], "BUILD_SET": [((2, 7), (3, 5))],
+    "SET_ADD": [((2, 7), (3, 5))], "MAP_ADD": [((2, 7), (2, 7)), ((3, 1), (3, 5))],
+    "POP_JUMP_IF_FALSE": [((2, 7), (2, 7)), ((3, 1), (3, 5))], "POP_JUMP_IF_TRUE": [((2, 7), (2, 7)), ((3, 1), (3, 5))],
+    "JUMP_IF_FALSE_OR_POP": [((2, 7), (2, 7)), ((3, 1), (3, 5))], "JUMP_IF_TRUE_OR_POP": [((2, 7), (2, 7)), ((3, 1), (3, 5))],
+    "JUMP_IF_FALSE": [((1, 5), (2, 6)), ((3, 0), (3, 0))], "JUMP_IF_TRUE": [((1, 5), (2, 6)), ((3, 0), (3, 0))],
+    "STOP_CODE": [((1, 5), (3, 2))], "STORE_LOCALS": [((3, 0), (3, 3))], "YIELD_FROM": [((3, 3), (3, 5))],
+    "LOAD_CLASSDEREF": [((3, 4), (3, 5))], "DELETE_DEREF": [((3, 2), (3, 5))], "POP_EXCEPT": [((3, 0), (3, 5))],
+    "LOAD_BUILD_CLASS": [((3, 0), (3, 5))], "BUILD_CLASS": [((1, 5), (2, 7))], "UNPACK_EX": [((3, 0), (3, 5))],
+    "PRINT_ITEM": [((1, 5), (2, 7))], "EXEC_STMT": [((1, 5), (2, 7))], "UNARY_CONVERT": [((1, 5), (2, 7))],
+    "BINARY_DIVIDE": [((1, 5), (2, 7))], "SLICE_0": [((1, 5), (2, 7))], "LOAD_LOCALS": [((1, 5), (2, 7))],
+    "BINARY_MATRIX_MULTIPLY": [((3, 5), (3, 5))], "GET_AWAITABLE": [((3, 5), (3, 5))], "GET_AITER": [((3, 5), (3, 5))],
+    "BEFORE_ASYNC_WITH": [((3, 5), (3, 5))], "BUILD_LIST_UNPACK": [((3, 5), (3, 5))],
+}
+# operand categories of opcodes that died before any interpreter we can run: (name, category, first, last).
+# Source: Lib/dis.py of Python 1.0-1.4 (its compiled form is among the sample files: test/bytecode_1.*/dis.pyc),
+# which declares  name_op('LOAD_LOCAL', 115)  like LOAD_NAME / LOAD_GLOBAL.
+CATEGORY_HISTORY = [("LOAD_LOCAL", "hasname", (1, 0), (1, 4))]
+# same opcode name in two adjacent versions => same operand categories and same 'takes an operand', except:
+NEIGHBOUR_EXCEPTIONS = {("LOAD_FAST", (1, 3)), ("STORE_FAST", (1, 3)),            # 1.3: index co_varnames, not names
+                        ("LIST_APPEND", (2, 7)), ("LIST_APPEND", (3, 0)), ("LIST_APPEND", (3, 1)),   # operand since 2.7 / 3.1
+                        ("SET_ADD", (3, 0)), ("SET_ADD", (3, 1))}
+
+
+def cpython_chain(tabs):
+    """[(version tuple, table name)] of the CPython tables in version order"""
+    return sorted((tuple(m.version_tuple[:2]), n) for n, m in tabs.items()
+                  if getattr(m, "version_tuple", None) and not n.endswith("pypy") and not n.endswith("graal"))
+
+
+def neighbour_diffs(tabs, name):
+    """category / takes-operand differences between table `name` and the tables next to it (for PyPy: the CPython
+    table of the same version)"""
+    opc = tabs[name]
+    vt = tuple(opc.version_tuple[:2])
+    chain = cpython_chain(tabs)
+    if name.endswith("pypy") or name.endswith("graal"):
+        others = [n for v, n in chain if v == vt]
+    else:
+        idx = [i for i, (v, n) in enumerate(chain) if n == name]
+        if not idx:
+            return []
+        i = idx[0]
+        others = [chain[j][1] for j in (i - 1, i + 1) if 0 <= j < len(chain) and (chain[j][0][0] == vt[0] or vt in ((2, 7), (3, 0)))]
+    out = []
+    for other in others:
+        pm = tabs[other]
+        ovt = tuple(pm.version_tuple[:2])
+        for n, num in sorted(opc.opmap.items()):
+            if n not in pm.opmap or n.startswith("<"):
+                continue
+            if (n, max(vt, ovt)) in NEIGHBOUR_EXCEPTIONS or (n, min(vt, ovt)) in NEIGHBOUR_EXCEPTIONS and ovt[0] != vt[0]:
+                continue
+            if (num >= opc.HAVE_ARGUMENT) != (pm.opmap[n] >= pm.HAVE_ARGUMENT):
+                out.append((n, "takes-an-operand", num >= opc.HAVE_ARGUMENT, other))
+            for cat in CATS:
+                a, b = num in getattr(opc, cat), pm.opmap[n] in getattr(pm, cat)
+                if a != b:
+                    out.append((n, cat, a, other))
+    return out
+
+
 class C09:
     id = "C09"
     rule = ("enumerated: every distinct table module in xdis.op_imports x 256 opcode numbers x 7 category sets; "
@@ -185,6 +260,26 @@ class C09:
                 for n, cat, a, b in family_consistency(name, opc, self.ref_tables(ctx, fam), CATS):
                     res.fail("C09|%s|family-category|%s|%s" % (tag, cat, n), "%s: %s %s %s, but CPython %s (same opcode name, same family) %s" % (
                         name, n, "is in" if a else "is not in", cat, fam, "has it there" if b else "does not"))
+            if vt < (3, 6):
+                res.classes.append("history+neighbours")
+                for n, cat, a, other in neighbour_diffs(self.tabs, name):
+                    res.fail("C09|%s|neighbour-category|%s|%s" % (tag, cat, n), "%s: %s %s %s, unlike the same opcode in %s" % (
+                        name, n, "has" if a else "lacks", cat, other))
+                for n, cat, lo, hi in CATEGORY_HISTORY:
+                    if lo <= vt <= hi and n in opc.opmap:
+                        for c2 in CATS:
+                            if (opc.opmap[n] in getattr(opc, c2)) != (c2 == cat):
+                                res.fail("C09|%s|category-history|%s|%s" % (tag, n, c2), "%s: %s %s %s; Python %d.%d's dis.py declares it in %s only" % (
+                                    name, n, "is in" if c2 != cat else "is not in", c2, vt[0], vt[1], cat))
+                if (1, 5) <= vt:
+                    for n, ranges in sorted(HISTORY.items()):
+                        want = any(lo <= vt <= hi for lo, hi in ranges)
+                        have = n in opc.opmap
+                        if want != have:
+                            res.fail("C09|%s|history|%s" % (tag, n), "%s: %s %s, but CPython %d.%d %s (dis documentation / HISTORY: in %s)" % (
+                                name, n, "is defined" if have else "is not defined", vt[0], vt[1],
+                                "had it" if want else "did not have it",
+                                ", ".join("%d.%d-%d.%d" % (lo + hi) for lo, hi in ranges)))
         return res
 
     # ------------------------------------------------------------------
